@@ -370,7 +370,10 @@ FieldViol(d, obs, known) ==
     THEN IF obs \in d.vals THEN {}
          ELSE IF devOk(LAMBDA a : IF "xs" \in DOMAIN a THEN obs \in a.xs ELSE obs = a.x) THEN {}
          ELSE IF d.kind = "opt" /\ (\E x \in d.vals : (Len(x) = 0) # (Len(obs) = 0))
-              THEN {<<"C11", d.name, "presence">>}
+              \* presence of an optional value: the 'not available' rule (C11), or - for an element that is present
+              \* or not depending on the message length (type 16 second station) - the element count (C14, C04)
+              THEN IF d.prop = "C14" THEN {<<"C14", d.name, "presence">>, <<"C04", d.name, "presence">>}
+                   ELSE {<<"C11", d.name, "presence">>}
               \* the communication state is made of fixed-position integers (slot parameters): a wrong
               \* value there contradicts C04 as well as C16
               ELSE IF d.prop = "C16" THEN {<<"C16", d.name, "value">>, <<"C04", d.name, "value">>}
